@@ -419,7 +419,14 @@ impl FileSpec {
             })
             .filter(|path| {
                 // infix filter must pass
-                let stem = path.file_stem().unwrap(/* CANNOT FAIL*/).to_string_lossy();
+                // the file name without the suffix that was already checked above
+                let stem = if o_suffix.is_some() {
+                    path.file_stem()
+                } else {
+                    path.file_name()
+                }
+                .unwrap(/* CANNOT FAIL*/)
+                .to_string_lossy();
                 // the infix follows the fixed name part and an underscore
                 let o_maybe_infix = stem.strip_prefix(&fixed_name_part).and_then(|s| {
                     if fixed_name_part.is_empty() {
@@ -435,6 +442,25 @@ impl FileSpec {
                     return false;
                 }
                 let end = maybe_infix.find('.').unwrap_or(maybe_infix.len());
+                // the infix can only be followed by a restart counter
+                // and, in case of compressed files, by the configured suffix
+                let mut tail = &maybe_infix[end..];
+                if let Some(rest) = tail.strip_prefix(".restart-") {
+                    let len = rest.find('.').unwrap_or(rest.len());
+                    if len != 4 || !rest[..len].bytes().all(|b| b.is_ascii_digit()) {
+                        return false;
+                    }
+                    tail = &rest[len..];
+                }
+                let suffix_of_compressed_file = match (o_suffix, &self.o_suffix) {
+                    (Some("gz"), Some(suffix)) => Some(suffix.as_str()),
+                    _ => None,
+                };
+                let tail_is_suffix = suffix_of_compressed_file
+                    .is_some_and(|suffix| tail.strip_prefix('.') == Some(suffix));
+                if !(tail.is_empty() || tail_is_suffix) {
+                    return false;
+                }
                 infix_filter.filter_infix(&maybe_infix[..end])
             })
             .map(PathBuf::clone)
